@@ -394,9 +394,10 @@ func ifEmpty(s, d string) string {
 
 func init() {
 	Register(&Engine{
-		ID:    "C19",
-		Cases: func(t string) int { return map[string]int{"quick": 600, "thorough": 40000}[t] },
-		Run:   runC19,
+		ID:      "C19",
+		Anchors: []string{"router.go:Prefix", "router.go:Resource", "router.go:Clean", "node.go:clean", "router.go:Remove", "router.go:URL"},
+		Cases:   func(t string) int { return map[string]int{"quick": 600, "thorough": 40000}[t] },
+		Run:     runC19,
 		Rule: "case = random facade program (10-30 steps: Prefix / nested Prefix / Resource creation with middlewares, prefixes cut anywhere incl. empty and inside a parameter token; Get/Post/Put/Delete/Patch/Any/Handle; Remove; Clean; URL) executed on router A and its translation into Router.Handle/Remove/URL calls with concatenated patterns and middleware lists on router B; after every step Routes(), a probe battery per pool pattern x 5 methods (status, paired handler, params, executed middleware chain, Allow), URL results and panics must agree; " +
 			"non-trivial (distinct by program text) = every program",
 		Floors: func(t string) map[string]int64 {
